@@ -169,6 +169,7 @@ func (r *RingBufferRateLimiter) SetMaxEvents(maxEvents int) {
 		r.advance()
 	}
 
+	newCursor := 0
 	if len(r.ring) > 0 {
 		// copy timestamps into the new ring until we
 		// have either copied all of them or have reached
@@ -179,14 +180,16 @@ func (r *RingBufferRateLimiter) SetMaxEvents(maxEvents int) {
 			r.advance()
 			if r.cursor == startCursor {
 				// new ring is larger than old one;
-				// "we've come full circle"
+				// "we've come full circle": the oldest
+				// slot is now the first empty one
+				newCursor = i + 1
 				break
 			}
 		}
 	}
 
 	r.ring = newRing
-	r.cursor = 0
+	r.cursor = newCursor
 }
 
 // Window returns the size of the sliding window.
